@@ -2,7 +2,7 @@
 import math, random, json, copy, io, os, subprocess, sys, glob
 import xml.etree.ElementTree as ET
 from common import *
-import arch
+import arch, kernel
 
 COQ_PROPS = 'props/C07.v'
 PARTIAL = ('proved, for every frozen archive / every history (no size bound): (1) JSON and XML decode(encode f) = f up to the explicit '
@@ -54,8 +54,84 @@ def mutate_json(rng, d):
         d['CLASS'] = 'Archiv'
     return d, kind
 
-def one_case(rng, idx, dist):
-    """one history -> (Gallina term of type Z, description for replay)"""
+class ContSession(kernel.KSession):
+    """a kernel recording session that starts from the numbers a load returned, in the CURRENT context"""
+    def __init__(self, initial):
+        from GTC import lib, core, reporting, context
+        self.lib, self.core, self.reporting = lib, core, reporting
+        self.ctx_id = context._context._id
+        self.ne = context._context._elementary_id_counter
+        self.ni = context._context._intermediate_id_counter
+        self.rec = record_math(); self.rec.__enter__()
+        self.extra = []; self.ops = []; self.outs = []; self.pyops = []; self.stats = {}
+        self.slots = list(initial); self.first = {}
+        for i, o in enumerate(initial): self.first.setdefault(id(o), i)
+
+def continue_on_restored(rng, ar2, heavy=False):
+    """arithmetic on restored numbers, result() of quantities that depend on restored intermediates and restored
+    elementary numbers, further operations, then reads / sensitivities / components w.r.t. the new and the restored
+    intermediates / covariances -- every step recorded as a Kernel.v op with the implementation's output"""
+    initial = list(ar2._tagged_real.values()) + [p for z in ar2._tagged_complex.values() for p in (z.real, z.imag)]
+    ks = ContSession(initial)
+    UR = ks.lib.UncertainReal
+    def reals(): return [i for i, o in enumerate(ks.slots) if isinstance(o, UR)]
+    def last(): return len(ks.slots) - 1
+    r_int = [i for i, o in enumerate(initial) if o.is_intermediate]
+    r_el = [i for i, o in enumerate(initial) if o.is_elementary]
+    new_int = []
+    try:
+        if rng.random() < 0.3 and r_int: ks.result(rng.choice(r_int), None)          # already declared: the same object
+        if rng.random() < 0.2 and r_el: ks.result(rng.choice(r_el), 21)               # elementary: the same object
+        if rng.random() < 0.5: ks.ureal(rng.choice([1.5, -2.0, 0.25]), rng.choice([0.1, 0.5]), rng.choice([math.inf, 6.0]), label=None, indep=True)
+        for j in range(rng.randint(2, 4) if heavy else rng.randint(1, 3)):
+            rs = reals()
+            a = rng.choice(r_int) if (r_int and rng.random() < 0.7) else rng.choice(rs)
+            b = rng.choice(r_el) if (r_el and rng.random() < 0.5) else rng.choice(rs)
+            ks.bin(rng.choice(['add', 'mul', 'sub']), ('ref', a), ('ref', b))
+            if ks.slots[last()] is None: continue
+            ks.bin(rng.choice(['mul', 'add']), ('ref', last()), ('num', rng.choice([2.0, -0.5, 3.0, 1.25])))
+            t = last()
+            if new_int and rng.random() < 0.6:
+                ks.bin('add', ('ref', t), ('ref', rng.choice(new_int))); t = last()
+            if ks.slots[t] is None: continue
+            ks.result(t, rng.choice([None, 10 + j]))
+            if isinstance(ks.slots[last()], UR) and ks.slots[last()].is_intermediate: new_int.append(last())
+            ks.result(last(), None) if rng.random() < 0.2 else None
+        # further operations on the new intermediates, nested declaration
+        for j in range(rng.randint(1, 3)):
+            rs = reals()
+            a = rng.choice(new_int) if new_int else rng.choice(rs)
+            b = rng.choice(rs)
+            ks.bin(rng.choice(['mul', 'add', 'sub']), ('ref', a), ('ref', b))
+            if ks.slots[last()] is not None and rng.random() < 0.5:
+                ks.bin('mul', ('ref', last()), ('ref', rng.choice(rs)))
+            if ks.slots[last()] is not None and rng.random() < 0.4:
+                ks.result(last(), 30 + j)
+                if isinstance(ks.slots[last()], UR) and ks.slots[last()].is_intermediate: new_int.append(last())
+        # reports
+        rs = reals()
+        late = rs[-3:]
+        wrt = list(dict.fromkeys(new_int + r_int[:3] + r_el[:2]))
+        for y in late:
+            ks.read('x', y); ks.read('u', y); ks.read('df', y)
+            for x in wrt:
+                if isinstance(ks.slots[x], UR):
+                    ks.sens(y, x); ks.ucomp(y, x)
+        for y in new_int[:3]:
+            ks.read('u', y); ks.read('df', y)
+        if len(late) >= 2:
+            ks.get_cov(late[0], late[-1]); ks.get_cov(late[-1], late[0])
+        if new_int and r_int:
+            ks.get_cov(new_int[0], r_int[0])
+    finally:
+        ks.heap_ok = ks.check_heap()
+        ks.close()
+    return ks
+
+def one_case(rng, idx, dist, focus=False):
+    """one history -> (Gallina term of type Z, description for replay).  focus: histories for the
+    restore-then-declare suite (intermediates always tagged, fresh reading session whose context id is
+    smaller or larger than the writing session's, no damaged documents, a heavier continued calculation)"""
     from GTC import persistence as pr, context, archive as garchive
     ctx_id = 100 + idx
     seed = rng.getrandbits(32)
@@ -63,8 +139,13 @@ def one_case(rng, idx, dist):
     pool, info = arch.gen_model(mrng, ctx_id, small=mrng.random() < 0.3)
     tags = arch.choose_tags(mrng, pool)
     fmt = mrng.choice(arch.FORMATS); via = mrng.choice(['string', 'file'])
-    where = mrng.choice(['fresh', 'fresh', 'same', 'same_modified', 'clash'])
+    where = mrng.choice(['fresh', 'fresh_lo', 'same', 'same_modified', 'clash'])
     malformed = mrng.random() < 0.15
+    if focus:
+        inter = [n for n, o in pool.items() if o.is_intermediate]
+        for j, n in enumerate(inter[:3]):
+            if n not in tags.values(): tags['i%d' % j] = n
+        where = mrng.choice(['fresh', 'fresh_lo', 'fresh_lo', 'same']); malformed = False
     desc = {'seed': seed, 'ctx': ctx_id, 'tags': tags, 'fmt': fmt, 'via': via, 'where': where, 'malformed': malformed, 'kinds': info['kinds']}
     for k in info['kinds']: dist['decl:' + k] = dist.get('decl:' + k, 0) + 1
     dist['fmt:' + fmt] = dist.get('fmt:' + fmt, 0) + 1
@@ -102,7 +183,9 @@ def one_case(rng, idx, dist):
     # --- the reading session
     keep = (pool, ar)
     if where == 'fresh':
-        new_context(ctx_id + 5000)
+        new_context(ctx_id + 5000)          # the new session's uids sort AFTER the restored ones
+    elif where == 'fresh_lo':
+        new_context(ctx_id // 2)            # ... BEFORE the restored ones
     elif where == 'same_modified':
         from GTC import core
         dep = [p for o in pool.values() for p in arch.parts(o)
@@ -139,8 +222,20 @@ def one_case(rng, idx, dist):
     after, ar2 = arch.cres(load, after_lit)
     desc['load_result'] = after[:40] if after.startswith('(Err') else 'Ok'
     dist['load:' + ('Ok' if not after.startswith('(Err') else after[5:-1])] = dist.get('load:' + ('Ok' if not after.startswith('(Err') else after[5:-1]), 0) + 1
-    term = ('run_acase (mkCase %s %s %s %s %s %s %s %s %s (Some %s))'
+    case = ('(mkCase %s %s %s %s %s %s %s %s %s (Some %s))'
             % (src, a_lit, frozen_lit, jdoc_lit, xdoc_lit, jin_lit, xin_lit, CODEC[fmt], tgt, after))
+    if after.startswith('(Err') or where == 'clash':
+        # (a reused context id re-issues uids that the archive also holds: new_leaf / new_node reuse-or-raise on
+        #  declaration is C08's subject and not part of Kernel.step)
+        term = 'run_acase %s' % case
+    else:
+        ks = continue_on_restored(mrng, ar2, heavy=focus)
+        desc['continued'] = ks.pyops; desc['read_ctx'] = ks.ctx_id
+        if not ks.heap_ok: desc['heap_corrupted'] = True
+        for k, v in ks.stats.items(): dist['cont:' + k] = dist.get('cont:' + k, 0) + v
+        term = ('run_dcase (mkDCase %s %s %s %s %s %s %s)'
+                % (case, cz(ks.ctx_id), cz(ks.ne), cz(ks.ni), oracle_table(ks.rec.log, ks.extra), clist(ks.ops), clist(ks.outs)))
+        desc['cont_outs'] = ks.outs
     del keep
     return term, desc
 
@@ -148,6 +243,51 @@ STAGES = {1: '_freeze: the five collections differ', 2: 'JSON document written d
           3: 'XML document written differs from the model encoder', 4: 'JSON reader (json_to_archive) differs from the model decoder',
           5: 'XML reader (_v150_to_archive) differs from the model decoder',
           6: '_thaw: registries or restored numbers after load differ'}
+
+def stage_mismatches(values, descs):
+    out = []
+    for i, v in enumerate(values):
+        if descs[i].get('heap_corrupted'):
+            out.append({'kind': 'vector-heap-corrupted', 'case': {k: w for k, w in descs[i].items() if k != 'cont_outs'}})
+        if v is not None and v != -1:
+            d = dict(descs[i]); outs = d.pop('cont_outs', None)
+            if v >= 100:
+                k = v - 100
+                d['continued'] = d.get('continued', [])[:k + 1]
+                out.append({'kind': 'model-vs-implementation', 'stage': 'continued calculation on the restored numbers: step %d '
+                            '(Kernel.step on the restored registries vs the implementation)' % k,
+                            'implementation_output': (outs[k][:400] if outs and k < len(outs) else None), 'case': d})
+            else:
+                out.append({'kind': 'model-vs-implementation', 'stage': STAGES.get(v, v), 'case': d})
+    return out
+
+def restore_then_declare_correspondence(rng, tier):
+    """C06 x C07: result() declared on top of numbers restored from an archive, in a reading session whose context id
+    is smaller or larger than the writing session's (so new node uids sort before / after the restored ones), followed by
+    further operations and reports; model-compared (Kernel.step on the model-restored registries) and original-vs-restored"""
+    n = 60 if tier == 'quick' else 1500
+    dist = {}; terms = []; descs = []
+    for i in range(n):
+        t, d = one_case(rng, 2000 + i, dist, focus=True)
+        terms.append(t); descs.append(d)
+    values, errors = coq_eval_cases('C07decl', HEADER, terms, per_file=max(4, min(40, n // NCPU + 1)))
+    mismatches = [{'kind': 'coqc', 'detail': e} for e in errors] + stage_mismatches(values, descs)
+    dn = 60 if tier == 'quick' else 1500
+    dres = differential(rng, dn, wheres=['fresh', 'fresh_lo', 'fresh_lo', 'same'], formats=['pickle', 'json', 'xml'], focus=True)
+    for f in dres['failing']:
+        mismatches.append({'kind': 'original-vs-restored', 'case': f})
+    for d in descs: d.pop('cont_outs', None)
+    dist.update({'differential:' + k: v for k, v in dres['counts'].items()})
+    steps = sum(len(d.get('continued', [])) for d in descs)
+    return {'programs': n + dn, 'steps': steps + dres['observations'], 'mismatches': mismatches,
+            'distinct': len(set(json.dumps([d['kinds'], sorted(d['tags'].values()), d['fmt'], d['where'], d.get('continued')], sort_keys=True, default=str) for d in descs)),
+            'distribution': dist,
+            'rule': 'archive with its declared intermediates tagged -> {pickle, JSON, XML} -> load in a session whose context id is '
+                    'smaller / larger than the writing one (or the same session) -> result() of quantities that depend on restored '
+                    'intermediates and restored elementary numbers -> further operations, nested declarations -> u, df, sensitivity and '
+                    'u_component w.r.t. new and restored intermediates, covariances; every step compared bit-exactly with Kernel.step run '
+                    'on the registries the model restored; plus the same continuation (with budget(intermediate=True)) on originals vs restored',
+            'samples': descs[:2]}
 
 def correspondence(rng, tier):
     n = 120 if tier == 'quick' else 3000
@@ -160,9 +300,8 @@ def correspondence(rng, tier):
     mismatches = []
     for e in errors:
         mismatches.append({'kind': 'coqc', 'detail': e})
-    for i, v in enumerate(values):
-        if v is not None and v != -1:
-            mismatches.append({'kind': 'model-vs-implementation', 'stage': STAGES.get(v, v), 'case': descs[i]})
+    mismatches += stage_mismatches(values, descs)
+    for d in descs: d.pop('cont_outs', None)
     # model-independent differential on the same kind of histories (known findings filtered)
     dn = 60 if tier == 'quick' else 1500
     dres = differential(rng, dn, dist)
@@ -176,14 +315,18 @@ def correspondence(rng, tier):
     distinct = len(set(json.dumps([d['kinds'], sorted(d['tags'].values()), d['fmt'], d['where']], sort_keys=True) for d in descs))
     dist.update({'differential:' + k: v for k, v in dres['counts'].items()})
     dist.update({'thorough:' + k: v for k, v in extra.get('counts', {}).items()})
-    return {'programs': n + dn, 'steps': 6 * n + dres['observations'], 'mismatches': mismatches, 'distinct': distinct,
+    return {'programs': n + dn, 'steps': 6 * n + sum(len(d.get('continued', [])) for d in descs) + dres['observations'], 'mismatches': mismatches, 'distinct': distinct,
             'distribution': dist,
             'rule': 'history = random model (independent / correlated / ensemble reals, independent / correlated / ensemble complex, '
                     'nested real and complex intermediates, labels incl. None and "") -> random tagged subset -> dump with '
-                    '{pickle, JSON, XML} x {string, file} -> {fresh context, same session, same session with a correlation changed, '
-                    'context id reused for other numbers} -> load; 15% of JSON documents damaged; each stage (freeze, two encoders, two '
-                    'decoders, thaw incl. registries) compared bit-exactly with the FNum model; plus an original-vs-restored '
-                    'differential over all observables and a continued calculation (4 storage functions incl. the legacy JSON writer)',
+                    '{pickle, JSON, XML} x {string, file} -> {fresh context with a larger / a smaller context id than the writing session, '
+                    'same session, same session with a correlation changed, context id reused for other numbers} -> load; 15% of JSON '
+                    'documents damaged; each stage (freeze, two encoders, two decoders, thaw incl. registries) compared bit-exactly with the '
+                    'FNum model; then a continued calculation on the restored numbers (arithmetic, result() on top of restored intermediates '
+                    'and elementary numbers, nested declarations, u / df / sensitivity / u_component w.r.t. new and restored intermediates, '
+                    'covariances) compared step by step with Kernel.step run on the registries the model restored; plus an original-vs-restored '
+                    'differential over all observables and a continued calculation incl. result() and budget(intermediate=True) '
+                    '(4 storage functions incl. the legacy JSON writer)',
             'samples': descs[:3]}
 
 # ---------------------------------------------------------------- the property oracle (differential)
@@ -198,17 +341,36 @@ def _norm_json(v):
 
 def explained(fmt, where, flags, want, got):
     """which known finding (if any) accounts for EVERY difference between the two observation sets"""
-    if want.keys() != got.keys(): return None
-    bad = [k for k in want if want[k] != got[k]]
     if fmt in ('json', 'legacy') and flags['untagged_complex_leaf']:
+        # result() evaluates the dof of what it declares: where that now fails with AssertionError the observations
+        # made after that declaration do not exist
+        # (and the later declarations draw from a different pool of declared numbers)
+        AE = 'EXC:AssertionError'
+        dead_d = [int(k[4:]) for k, v in got.items() if re.fullmatch(r'decl\d+', k) and v == AE and want.get(k) != v]
+        dead_a = [int(k[5:]) for k, v in got.items() if re.fullmatch(r'after\d+', k) and v == AE and want.get(k) != v]
+        first = min(dead_d + dead_a) if dead_d + dead_a else None
+        def skip(k):
+            m = re.match(r'(decl|after)(\d+)(.*)', k)
+            if not m or first is None: return False
+            j = int(m.group(2))
+            if j > first: return True
+            if j < first: return False
+            if first in dead_d: return m.group(1) == 'after'
+            return m.group(1) == 'after' and m.group(3) != ''
+        if set(k for k in want if not skip(k)) != set(k for k in got if not skip(k)): return None
+        got = {k: v for k, v in got.items() if not skip(k)}
+        bad = [k for k in got if want[k] != got[k]]
         def ok(k):
             w, g = _norm_json(want[k]), _norm_json(got[k])
             if w == g: return True
+            if re.fullmatch(r'(decl|after)\d+', k) and g == 'EXC:AssertionError': return True
             # a dof evaluation that now fails with AssertionError (welch_satterthwaite / willink_hall)
-            if isinstance(g, (list, tuple)) and isinstance(w, (list, tuple)) and len(g) == len(w):
-                return all(a == b or b == 'EXC:AssertionError' for a, b in zip(w, g))
-            return g == 'EXC:AssertionError'
+            if isinstance(g, (list, tuple)) and isinstance(w, (list, tuple)) and len(g) == len(w) and len(g) >= 3:
+                return all(a == b or (i == 2 and b == 'EXC:AssertionError') for i, (a, b) in enumerate(zip(w, g)))
+            return False
         if all(ok(k) for k in bad): return 'C07-json-complex-list'
+    if want.keys() != got.keys(): return None
+    bad = [k for k in want if want[k] != got[k]]
     if fmt == 'xml' and flags['empty_label']:
         def blank(v):
             # labels: '' and None (and the uid(...) label a budget invents for None) are conflated
@@ -222,17 +384,20 @@ def explained(fmt, where, flags, want, got):
 def nan_df_intermediate(tags, pool):
     return any(p.is_intermediate and math.isnan(p._node.df) for t, n in tags.items() for p in arch.parts(pool[n]))
 
-def diff_one(seed, ctx_id, fmt, via, where):
+def diff_one(seed, ctx_id, fmt, via, where, focus=False):
     """(None, n) if the property holds on this history, else (failing-input dict, n); the dict says which known
     finding, if any, explains all of the difference ('explained_by')"""
     from GTC import lib
     mrng = random.Random(seed)
     pool, info = arch.gen_model(mrng, ctx_id, small=mrng.random() < 0.3)
     tags = arch.choose_tags(mrng, pool)
+    if focus:
+        for j, n in enumerate([n for n, o in pool.items() if o.is_intermediate][:3]):
+            if n not in tags.values(): tags['i%d' % j] = n
     flags = arch.archive_flags(tags, pool)
     flags['nan_df_intermediate'] = nan_df_intermediate(tags, pool)
     cont_seed = mrng.getrandbits(32)
-    rec = {'seed': seed, 'ctx': ctx_id, 'fmt': fmt, 'via': via, 'where': where, 'flags': flags, 'explained_by': None}
+    rec = {'seed': seed, 'ctx': ctx_id, 'fmt': fmt, 'via': via, 'where': where, 'focus': focus, 'flags': flags, 'explained_by': None}
     try:
         ar = arch.make_archive(tags, pool, legacy=(fmt == 'legacy'))
         doc = arch.dump_with(fmt, ar, via)
@@ -241,7 +406,9 @@ def diff_one(seed, ctx_id, fmt, via, where):
     originals = {t: pool[n] for t, n in tags.items()}
     want = arch.observe(originals, cont_seed)
     if where == 'fresh':
-        new_context(ctx_id + 7000)
+        new_context(ctx_id + 7000)          # new uids sort after the restored ones
+    elif where == 'fresh_lo':
+        new_context(ctx_id // 2)            # ... before
     try:
         ar2 = arch.load_with(fmt, doc, via)
         restored = {t: ar2[t] for t in tags}
@@ -275,12 +442,15 @@ def is_known(f):
     intermediate whose dof is NaN)."""
     return isinstance(f, dict) and f.get('explained_by') in ('C07-json-complex-list', 'C07-xml-empty-label', 'C07-nan-dof-same-session')
 
-def differential(rng, n, dist=None):
+WHERES = ['fresh', 'fresh_lo', 'same']
+ALLFORMATS = ['pickle', 'json', 'xml', 'legacy']
+
+def differential(rng, n, dist=None, wheres=WHERES, formats=ALLFORMATS, focus=False):
     counts = {}; failing = []; nobs = 0
     for i in range(n):
-        seed = rng.getrandbits(32); fmt = rng.choice(['pickle', 'json', 'xml', 'legacy']); via = rng.choice(['string', 'file'])
-        where = rng.choice(['fresh', 'fresh', 'same'])
-        r, k = diff_one(seed, 300 + i, fmt, via, where)
+        seed = rng.getrandbits(32); fmt = rng.choice(formats); via = rng.choice(['string', 'file'])
+        where = rng.choice(wheres)
+        r, k = diff_one(seed, 300 + i, fmt, via, where, focus)
         nobs += k
         key = fmt + '/' + where
         counts[key] = counts.get(key, 0) + 1
@@ -296,8 +466,8 @@ def search(rng, tier, broken):
     tried = 0
     for i in range(n):
         seed = rng.getrandbits(32); fmt = rng.choice(['pickle', 'json', 'xml', 'legacy']); via = rng.choice(['string', 'file'])
-        where = rng.choice(['fresh', 'fresh', 'same'])
-        r, _ = diff_one(seed, 300 + i, fmt, via, where)
+        where = rng.choice(WHERES)
+        r, _ = diff_one(seed, 300 + i, fmt, via, where, focus=(i % 2 == 1))
         tried += 1
         if r is not None and not is_known(r):
             return {'tried': tried, 'failing': r}
@@ -424,8 +594,8 @@ def kf_C07_nan_dof_same_session():
 def replay(payload):
     print(json.dumps(payload.get('broken'), indent=1, default=str)[:3000])
     f = payload.get('failing_input')
-    if f and 'seed' in f and f.get('where') in ('fresh', 'same'):
-        r, _ = diff_one(f['seed'], f['ctx'], f['fmt'], f['via'], f['where'])
+    if f and 'seed' in f and f.get('where') in ('fresh', 'fresh_lo', 'same'):
+        r, _ = diff_one(f['seed'], f['ctx'], f['fmt'], f['via'], f['where'], f.get('focus', False))
         print('replayed failing input on the implementation:', 'STILL FAILS %s' % json.dumps(r, default=str)[:1500] if r else 'passes now')
         return 1 if r else 0
     return 0
